@@ -3,6 +3,7 @@ package c14
 import (
 	"errors"
 	"fmt"
+	"strings"
 	"sync"
 	"testing"
 	"time"
@@ -28,7 +29,7 @@ import (
 
 type SlowCloseCase struct {
 	Transport string `json:"transport"` // tcp | sctp
-	Term      string `json:"term"`      // eof | read-error | garbage
+	Term      string `json:"term"`      // eof | eof-in-header | eof-in-body | read-error | garbage
 	When      string `json:"when"`      // during-close | from-error-report
 }
 
@@ -114,6 +115,17 @@ func runSlowClose(c SlowCloseCase) *ev.Failure {
 		be.WaitParked(promptly)
 	}
 	switch c.Term {
+	case "eof-in-header", "eof-in-body":
+		// the peer's orderly shutdown arrives inside a message
+		part := appMessage(2, false)
+		part = part[:map[string]int{"eof-in-header": 12, "eof-in-body": 26}[c.Term]]
+		if mc != nil {
+			mc.Feed(part)
+			mc.FeedEOF()
+		} else {
+			be.Feed(memnet.Chunk{Stream: 2, Data: part})
+			be.FeedEOF()
+		}
 	case "eof":
 		if mc != nil {
 			mc.FeedEOF()
@@ -167,7 +179,7 @@ func runSlowClose(c SlowCloseCase) *ev.Failure {
 
 var slowCloseProp = ev.Register(&ev.Prop[SlowCloseCase]{
 	ID: "C14", Name: "first-request-inside-the-termination",
-	Rule: "a connection made with NewConn over an in-memory byte-stream transport or multi-stream association, one message handled, then ended by EOF / a read error / undecodable input; the FIRST CloseNotify request is made while the library closes the transport (a Close that takes 150 ms; from another goroutine) or from the handler's Error method on the reading goroutine (read error, undecodable input). " +
+	Rule: "a connection made with NewConn over an in-memory byte-stream transport or multi-stream association, one message handled, then ended by EOF (between messages, inside a header, inside a body) / a read error / undecodable input; the FIRST CloseNotify request is made while the library closes the transport (a Close that takes 150 ms; from another goroutine) or from the handler's Error method on the reading goroutine (read error, undecodable input). " +
 		"Demanded: the call returns, its channel is closed within the deadline, no library goroutine of the connection stays behind. Every case is non-trivial",
 	Run: runSlowClose,
 	Classify: func(c SlowCloseCase) (bool, []string) {
@@ -178,10 +190,10 @@ var slowCloseProp = ev.Register(&ev.Prop[SlowCloseCase]{
 func TestC14FirstRequestInsideTermination(t *testing.T) {
 	slowCloseProp.Enumerate(t, true, func(yield func(SlowCloseCase) bool) {
 		for _, tr := range []string{"tcp", "sctp"} {
-			for _, term := range []string{"eof", "read-error", "garbage"} {
+			for _, term := range []string{"eof", "eof-in-header", "eof-in-body", "read-error", "garbage"} {
 				for _, when := range []string{"during-close", "from-error-report"} {
-					if when == "from-error-report" && term == "eof" {
-						continue // a clean end of stream is not reported
+					if when == "from-error-report" && strings.HasPrefix(term, "eof") {
+						continue // an end of stream is not reported
 					}
 					if !yield(SlowCloseCase{Transport: tr, Term: term, When: when}) {
 						return
